@@ -555,6 +555,9 @@ ROUNDTRIP = [
     'from t\nselect {`let`, m = `module`.`case`}\n',
     'from t\nderive {x = s"REPLACE({path}, \'\\\\\', \'/\')", y = f"C:\\\\data\\\\{name}"}\n',
     'from t\nderive {q = f"say \\"hi\\" {{literally}} {name}"}\n',
+    # parentheses that the precedence of `**`, unary minus and ranges makes necessary
+    'from t\nderive {neg_sq = -(d ** 2), decay = -(2 ** s) + o, p = (-d) ** 2}\n',
+    'from t\nfilter (a | in (2 ** 3)..50)\nderive {m = (a + b) * c, n = a - (b - c), q = a / (b * c)}\n',
 ]
 
 
